@@ -130,43 +130,28 @@ func parseWildcardConstraint(operator, version string) ([]*constraint, error) {
 	baseVersion := strings.TrimSuffix(version, ".*")
 
 	e := &Ecosystem{}
-	v, err := e.NewVersion(baseVersion + ".0")
+	v, err := e.NewVersion(baseVersion)
 	if err != nil {
 		return nil, err
 	}
 
-	if operator == "==" {
-		// ==1.2.* means >=1.2.0, <1.3.0
-		if len(v.release) >= 2 {
-			lowerBound := fmt.Sprintf("%d.%d.0", v.release[0], v.release[1])
-			upperBound := fmt.Sprintf("%d.%d.0", v.release[0], v.release[1]+1)
-			return []*constraint{
-				{operator: ">=", version: lowerBound},
-				{operator: "<", version: upperBound},
-			}, nil
-		}
+	// The versions that start with the release prefix V are those from V up to
+	// (but excluding) V with its last segment incremented:
+	// ==1.* is >=1, <2   ==1.2.* is >=1.2, <1.3   ==1.2.3.* is >=1.2.3, <1.2.4
+	upperBound := nextPrefix(v.epoch, v.release)
 
-		// ==1.* means >=1.0.0, <2.0.0
-		if len(v.release) >= 1 {
-			lowerBound := fmt.Sprintf("%d.0.0", v.release[0])
-			upperBound := fmt.Sprintf("%d.0.0", v.release[0]+1)
-			return []*constraint{
-				{operator: ">=", version: lowerBound},
-				{operator: "<", version: upperBound},
-			}, nil
-		}
+	if operator == "==" {
+		return []*constraint{
+			{operator: ">=", version: baseVersion},
+			{operator: "<", version: upperBound},
+		}, nil
 	}
 
 	if operator == "!=" {
-		// !=1.2.* means <1.2.0 or >=1.3.0
-		if len(v.release) >= 2 {
-			lowerBound := fmt.Sprintf("%d.%d.0", v.release[0], v.release[1])
-			upperBound := fmt.Sprintf("%d.%d.0", v.release[0], v.release[1]+1)
-			return []*constraint{
-				{operator: "<", version: lowerBound},
-				{operator: ">=", version: upperBound},
-			}, nil
-		}
+		// !=1.2.* excludes exactly that interval
+		return []*constraint{
+			{operator: "not in", version: baseVersion, upper: upperBound},
+		}, nil
 	}
 
 	return nil, fmt.Errorf("unsupported wildcard constraint: %s%s", operator, version)
@@ -192,6 +177,7 @@ func (pr *VersionRange) Contains(version *Version) bool {
 type constraint struct {
 	operator string
 	version  string
+	upper    string // exclusive upper bound of the "not in" operator (!=V.*)
 }
 
 // matches checks if the given version matches this constraint
@@ -210,6 +196,12 @@ func (c *constraint) matches(version *Version) bool {
 	comparison := version.Compare(constraintVersion)
 
 	switch c.operator {
+	case "not in":
+		upperVersion, err := e.NewVersion(c.upper)
+		if err != nil {
+			return false
+		}
+		return comparison < 0 || version.Compare(upperVersion) >= 0
 	case "==":
 		return comparison == 0
 	case "!=":
